@@ -246,7 +246,7 @@ func cmdCheck(args []string) int {
 	}
 	solvers := []string{"portfolio"}
 	if *tier == "thorough" {
-		solvers = []string{"portfolio", "z3", "z3-new", "cvc5"}
+		solvers = []string{"portfolio", "z3-new", "cvc5"}
 	}
 	timeoutMs := "20000"
 	if *tier == "thorough" {
